@@ -104,6 +104,7 @@ func (b *GRPCWebBridge) ServeHTTP(rw http.ResponseWriter, r *http.Request) {
 	// so that the trailer frame is always the last frame of the response.
 	incoming.finish()
 
+	boundRequestBodyDrain(rw)
 	writeTrailerWithStatus(rw, incoming.trailer, status.Convert(err))
 }
 
